@@ -43,7 +43,9 @@ def tail_chain(rng, depth):
         if rng.random() < 0.3:
             body += rng.choice("v&~ßƒɖ")  # a modifier directly in front of the next structure
     last = rng.choice(["", "1", "+", "`ab", "«ab", "»12", "‛xy", "\\a", "kA", "X", "x", "v+", "₌+-", "→a",
-                       "`a\\n", "`a\\`", "`\\\\", "`\\`\\n", "`a b\\t", "«a\\", "»1\\"])
+                       "`a\\n", "`a\\`", "`\\\\", "`\\`\\n", "`a b\\t", "«a\\", "»1\\",
+                       # literal bodies ending in real white space (a final newline is what an editor adds to a file)
+                       "`a\n", "`a\n\n", "«ab\n", "»12\n", "`a ", "`a\t", "` ", "`\n", "«\n", "`a\r\n"])
     body += gens.well_formed(rng, 1) + last
     strcloser = {"`": "`", "«": "«", "»": "»"}.get(last[:1], "") if last[:1] in "`«»" and len(last) > 1 else ""
     return body + strcloser + closers, len(strcloser) + len(closers)
@@ -103,7 +105,7 @@ def run(ctx, widen=False):
     # every short string body over the escape-relevant characters, with and without its closing delimiter
     for d in "`«»":
         for L in range(0, 5 if thorough else 4):
-            for t in itertools.product(["\\", d, "a", "n", "]"], repeat=L):
+            for t in itertools.product(["\\", d, "a", "n", "]", "\n", " "], repeat=L):
                 body = "".join(t)
                 toks = lexer.tokenise(d + body + d + "+")
                 if len(toks) == 2 and toks[1].value == "+" and toks[1].name == lexer.TokenType.GENERAL and toks[0].value:   # the closer really closes this literal
